@@ -34,6 +34,7 @@ type Monitor struct {
 	burnOK     bool // the current tx may legitimately burn (self-destruct templates)
 	block1Changed bool
 	tmKind        string
+	ref           *evmRef
 	collisionSeen bool
 	genesisDump   string
 	Checks     map[string]int
@@ -286,6 +287,9 @@ func (m *Monitor) OnDeliver(s *apphist.Sim, bz []byte, preD, postD string, o app
 	tx := &ctrlertypes.Trx{}
 	decodable := tx.Decode(bz) == nil
 	hash := appdrv.Hex(tmtypes.Tx(bz).Hash())
+	if m.ref != nil {
+		m.checkRef(s, Parse(postD), o, tr)
+	}
 	if o.Code != 0 {
 		// ---- C05: a failed transaction has no effect; C04: nonces unchanged; C16: no fee
 		if NonEmptyDump(preD) != NonEmptyDump(postD) {
@@ -377,6 +381,11 @@ func (m *Monitor) OnDeliver(s *apphist.Sim, bz []byte, preD, postD string, o app
 			m.fail(s, "C13", "withdraw-exact", fmt.Sprintf("withdrawal of %s: balance %s -> %s, expected %s", req, pa.Bal, post.Accts[from].Bal, want))
 		}
 		m.ok("C13.withdraw")
+	}
+	for _, c := range s.Contracts {
+		if c.Prog.MayBurn {
+			m.burnOK = true
+		}
 	}
 	if isEvm {
 		// the EVM may burn (self-destruct to self); everything else must be conserved
